@@ -375,13 +375,13 @@ def jobs : List Job := [
   job "tmo_2" (Fmt.isoTimeOpt (.digits 2)) "Fmt.isoTimeOpt (.digits 2)" "val_tmo_2" (lookupRe "tmo_2" 0 false),
   job "tmo_3" (Fmt.isoTimeOpt (.digits 3)) "Fmt.isoTimeOpt (.digits 3)" "val_tmo_3" (lookupRe "tmo_3" 0 false),
   job "tmo_9" (Fmt.isoTimeOpt (.digits 9)) "Fmt.isoTimeOpt (.digits 9)" "val_tmo_9" (lookupRe "tmo_9" 0 false),
-  job "ipv6" Fmt.ipv6 "Fmt.ipv6" "val_ipv6" (lookupRe "ipv6" 0 false),
+  job "ipv6" Fmt.ipv6 "Fmt.ipv6" "pat_ipv6" (lookupRe "ipv6" 0 true),
   job "cidrv6" Fmt.cidrv6 "Fmt.cidrv6" "pat_cidrv6" (lookupRe "cidrv6" 0 true),
   -- without the zone byte '%': the shortest difference in the dotted-quad forms
-  jobR "ipv6_nopct" Fmt.ipv6 "Fmt.ipv6" "val_ipv6" (lookupRe "ipv6" 0 false) [37] Fmt.nonHexLetters,
+  jobR "ipv6_nopct" Fmt.ipv6 "Fmt.ipv6" "pat_ipv6" (lookupRe "ipv6" 0 true) [37] Fmt.nonHexLetters,
   jobR "cidrv6_nopct" Fmt.cidrv6 "Fmt.cidrv6" "pat_cidrv6" (lookupRe "cidrv6" 0 true) [37] Fmt.nonHexLetters,
   -- without '%' and '.': the pattern is RFC 4291
-  jobR "ipv6_partial" Fmt.ipv6Hex "Fmt.ipv6Hex" "val_ipv6" (lookupRe "ipv6" 0 false) [46, 37] Fmt.nonHexLetters,
+  jobR "ipv6_partial" Fmt.ipv6Hex "Fmt.ipv6Hex" "pat_ipv6" (lookupRe "ipv6" 0 true) [46, 37] Fmt.nonHexLetters,
   jobR "cidrv6_partial" Fmt.cidrv6Hex "Fmt.cidrv6Hex" "pat_cidrv6" (lookupRe "cidrv6" 0 true) [46, 37] Fmt.nonHexLetters,
   jobE "isodatetime_partial" (Fmt.isoDateTimeQ false) Fmt.isoDateTimeNoSecQ "Fmt.isoDateTimeQ false" "Fmt.isoDateTimeNoSecQ" "pat_isodatetime" (lookupRe "isodatetime" 0 true),
   jobE "base64url_partial" Fmt.base64url Fmt.base64urlBadLen "Fmt.base64url" "Fmt.base64urlBadLen" "pat_base64url" (lookupRe "base64url" 0 true)]
